@@ -112,6 +112,9 @@ def _reader_blocks(b, l):
     return out
 
 
+_LIB = None
+
+
 def _use(b, l, E, depth):
     if depth > 5:
         return "flow too deep to follow"
@@ -133,6 +136,16 @@ def _use(b, l, E, depth):
                     verdicts.append("the error is turned into a panic with Result::%s" % t)
                 elif cal == "std::ops::FromResidual::from_residual":
                     verdicts.append("propagated")
+                elif _LIB is not None and (c2.name or "") in _LIB.bodies and not c2.is_dyn():
+                    # handed to a local function: follow the parameter inside it, and the function's own result here
+                    cb = _LIB.bodies[c2.name]
+                    inner = _use(cb, ai + 1, E, depth + 1)
+                    if inner != "propagated":
+                        verdicts.append("passed to %s, where %s" % (c2.name, inner))
+                    elif result_err(c2.dest.get("ty", ""), E) is not None:
+                        verdicts.append(classify(b, c2, E, depth + 1))
+                    else:
+                        verdicts.append("passed to %s, whose result no longer carries the error" % c2.name)
                 else:
                     verdicts.append("propagated" if c2.dest["l"] == 0 else "passed to %s" % (c2.name or cal))
     # moved / matched
@@ -162,12 +175,22 @@ def _matched(b, bb, l):
     preceded by an Err construction (or stay inside the arm forever is impossible)."""
     t = b.term(bb)
     if t["k"] != "switch":
-        return "matched (unrecognised idiom)"
+        # a discriminant read that no branch depends on (drop-flag elaboration reads it and goes on)
+        dl = [st["place"]["l"] for st in b.stmts(bb) if st["k"] == "assign" and st["rv"]["k"] == "discr"
+              and st["rv"]["place"]["l"] == l]
+        used = any(tt["k"] == "switch" and tt["discr"].get("k") in ("copy", "move") and tt["discr"]["place"]["l"] in dl
+                   for tt in (b.term(i) for i in range(b.n)))
+        return "matched (unrecognised idiom)" if used else "propagated"
     err_t = [tg for v, tg in t["arms"] if v == 1]
     if not err_t:
         err_t = [t["otherwise"]]
     from rules.pipeline_rules import err_blocks
-    eb = err_blocks(b)
+    eb = set(err_blocks(b))
+    # handing the matched Result itself back (`other => other`) keeps the error
+    for bb2, idx, place, rv, _ in b.assignments():
+        if place["l"] == 0 and not place["p"] and rv["k"] == "use" and rv["op"].get("k") in ("move", "copy") \
+                and rv["op"]["place"]["l"] == l and not rv["op"]["place"]["p"]:
+            eb.add(bb2)
     esc = b.must_pass(eb, b.returns(), start=err_t[0])
     # paths that loop back (no return) are caught by C16-RECOVER for read_input
     if esc:
@@ -189,6 +212,8 @@ def run(ctx, rep):
 
 
 def no_drop(rep, lib):
+    global _LIB
+    _LIB = lib
     E = error_types(lib)
     r = rep.rule("C16-NO-DROP", "outside the expression functions, no Result that can carry an I/O or formatting error "
                  "is discarded, defaulted, unwrapped or dropped: it is propagated or matched with the Err arm "
